@@ -42,13 +42,13 @@ def run(ctx):
     for (m, nb) in MODS:
         ctx.need_module(m)
         one_module(ctx, m, nb)
-    frames.run_frames_state_only(ctx, "D1/T9-frames", [m + ":_compute_state_new" for (m, _) in MODS])
+    ctx.guard(frames.run_frames_state_only, ctx, "D1/T9-frames", [m + ":_compute_state_new" for (m, _) in MODS])
     from . import units
-    units.run(ctx, "D3/T8-dimensional-homogeneity", {m for (m, _) in MODS}, min_scenarios=4)
+    ctx.guard(units.run, ctx, "D3/T8-dimensional-homogeneity", {m for (m, _) in MODS}, min_scenarios=4)
     # the elastic trial strain is log_sqrt_symm of a symmetric tensor: the closed-form eigen solver it relies on (shared with C12)
     from . import eigenalg
     ctx.need_module("optimism.TensorMath")
-    eigenalg.run(ctx, "D3/T7-eigen-solver-algebra", "optimism.TensorMath:eigen_sym33_non_unit")
+    ctx.guard(eigenalg.run, ctx, "D3/T7-eigen-solver-algebra", "optimism.TensorMath:eigen_sym33_non_unit")
     ctx.trust("det expm(A) = exp(tr A); dev(A):dev(A) is a sum of squares")
     ctx.assume("moduli, relaxation times and dt are positive")
 
